@@ -180,7 +180,8 @@ def run(res, tier="quick", seed=0, widen=False):
     # ---- magnitudes: a large value that has left the window must leave no trace in the sums that follow
     # (running sums updated by add / subtract keep the rounding error of everything that ever passed through)
     U = Fraction(1, 2**53)
-    OUT = [1e16, -1e16, 1e8 + 0.1, float(2**60), 3e12 + 0.25, -7e15, float("inf"), float("-inf")]
+    OUT = [1e16, -1e16, 1e8 + 0.1, float(2**60), 3e12 + 0.25, -7e15, float("inf"), float("-inf"), 1e308, 1e308, -1e308]
+    DBL_MAX = Fraction(1.7976931348623157e308)
     SMALL = [1.0, 2.5, -3.0, 0.5, 0.1, 0.7, 4.0]
     for t in range(200 if tier == "quick" else 2000):
         L = rng.randint(3, 16)
@@ -225,6 +226,8 @@ def run(res, tier="quick", seed=0, widen=False):
                     bad.append((i, gi, "nan" if len(infs) == 2 else next(iter(infs))))
                 continue
             win = [Fraction(v) for v in raw]
+            if sum((abs(x) for x in win), Fraction(0)) > DBL_MAX:
+                continue          # the window's own sum overflows binary64 (in some order of summation): nothing is claimed for this row
             if len(win) < mp:
                 want = None
             else:
